@@ -14,6 +14,13 @@ import json, os, sys
 ROOT = os.path.dirname(os.path.dirname(os.path.abspath(__file__)))
 
 
+ORIGIN = {
+    0: "written by an independent sub-agent that saw only the property text, the list of ideas already used in earlier rounds, and a scratch worktree of /repo (nothing from /verif)",
+    6: "written by an independent sub-agent that saw only the property text and a scratch worktree of /repo (nothing from /verif); asked for ordinary maintainer mistakes",
+    7: "written by an independent sub-agent that saw only the property text, the list of functions no earlier seeded change had touched (both changes had to be placed there), and a scratch worktree of /repo (nothing from /verif)",
+}
+
+
 def load(path):
     try:
         with open(path) as f:
@@ -48,7 +55,7 @@ def main():
             "summary": am.get("summary", ""),
             "needs": am.get("needs", ""),
             "files": am.get("files", []),
-            "origin": "written by an independent sub-agent that saw only the property text, the list of ideas already used in earlier rounds, and a scratch worktree of /repo (nothing from /verif)",
+            "origin": ORIGIN.get(rnd, ORIGIN[0]),
             "confirmed_by_me": {
                 "applies_to_repo_HEAD": bool(fin.get("applies")),
                 "existing_suite_with_patch": fin.get("suite"),
